@@ -648,15 +648,25 @@ func zvC02Domains(thorough bool) (d3, d4 []zvSelPD) {
 	s3 := zvSelDomSpec{LP: []int{100}, ASLen: []int{1}, Origin: []int{0}, MED: []int{0, 10}, EBGP: []bool{false},
 		ID: []uint32{1, 2}, Orig: []uint32{0, 1, 3}, CL: []int{-1, 0, 1, 2}, Peer: []uint8{1, 2}, NH: []uint8{1}}
 	s4 := zvSelDomSpec{LP: []int{100}, ASLen: []int{1}, Origin: []int{0}, MED: []int{0}, EBGP: []bool{false},
-		ID: []uint32{1, 2}, Orig: []uint32{0, 3}, CL: []int{-1, 1, 2}, Peer: []uint8{1, 2}, NH: []uint8{1}}
+		ID: []uint32{1, 2}, Orig: []uint32{0}, CL: []int{-1, 1, 2}, Peer: []uint8{1, 2}, NH: []uint8{1}}
+	var extra4 []zvSelPD
 	if thorough {
 		s3.LP = []int{100, 200}
 		s3.EBGP = []bool{false, true}
+		s3.NH = []uint8{1, 2}
 		s4.Orig = []uint32{0, 1, 3}
 		s4.CL = []int{-1, 0, 1, 2}
+	} else {
+		// ORIGINATOR_ID substitution and an empty CLUSTER_LIST, a few representatives
+		for _, cl := range []int{-1, 1} {
+			for _, pe := range []uint8{1, 2} {
+				extra4 = append(extra4, zvSelPD{LP: 100, ASLen: 1, ID: 1, Orig: 3, CL: cl, Peer: pe, NH: 1})
+			}
+		}
+		extra4 = append(extra4, zvSelPD{LP: 100, ASLen: 1, ID: 1, CL: 0, Peer: 1, NH: 1})
 	}
 	d3 = append(s3.enumerate(), zvSelStatics...)
-	d4 = s4.enumerate()
+	d4 = append(s4.enumerate(), extra4...)
 	// one path that is not ECMP-equal to the rest, one static path
 	d4 = append(d4, zvSelPD{LP: 100, ASLen: 1, MED: 10, ID: 1, CL: -1, Peer: 1, NH: 1}, zvSelStatics[0])
 	return
